@@ -145,6 +145,17 @@ func (r *Run) Classify(path *Path, i int) GuardClass {
 		if tv, ok := rfn.Info().Types[nc]; ok && tv.Value != nil {
 			break // a literal result: nothing more to learn
 		}
+		// a compound result whose operands were split inside the helper: the operand guards carry the
+		// meaning; this test of the result adds nothing
+		for _, pe := range path.Events {
+			if pe.Kind == EvReturn && pe.Fn == rfn && pe.RetTruth != nil {
+				for k, r0 := range pe.Results {
+					if _, known := pe.RetTruth[k]; known && ast.Unparen(r0) == ast.Unparen(res[idx]) {
+						return GuardClass{Subject: "result:" + rfn.origOrSelf().Name, Outcome: tern(ev.Val, "true", "false")}
+					}
+				}
+			}
+		}
 		cond, fn, info = nc, rfn, rfn.Info()
 	}
 	reqPrefix := func(c string) bool { return strings.HasPrefix(c, "var:") }
